@@ -3,9 +3,46 @@ import ShelxModel.C05
 open Lean Shelx.J
 
 namespace Shelx.Drv.C05
+open Shelx.C05
+
+def ofLine (l : List Char) : Json := Json.str (String.ofList l)
+def ofToks (t : List (List Char)) : Json := Json.arr (t.map ofLine).toArray
+
+def ofModel (r : Except PyErr (List (Nat × Line))) : Json :=
+  match r with
+  | .error _ => Json.mkObj [("raise", Json.str "IndexError")]
+  | .ok l => Json.mkObj [("lines", Json.arr (l.map fun (i, g) =>
+      let c := classify g
+      Json.mkObj [("start", ofNat i), ("word", ofLine c.word), ("spline", ofToks c.spline),
+                  ("tokens", ofToks (tokensOf g))]).toArray)]
+
+def ofNorm (r : Option (List (List Token))) : Json :=
+  match r with
+  | none => Json.null
+  | some l => Json.arr (l.map ofToks).toArray
 
 def handle (j : Json) : Except String Json := do
   let op ← strField j "op"
-  err s!"C05: unknown op {op}"
+  match op with
+  | "lines" =>
+    -- {"lines": [physical lines]}  ->  model (repaired code), model of the code as it was, spec
+    let ls ← field j "lines" >>= strs
+    let f := ls.map String.toList
+    return Json.mkObj [("model", ofModel (modelLogicalLines f)), ("old", ofModel (modelLogicalLinesOld f)),
+                       ("spec", ofNorm (norm f))]
+  | "mt" =>
+    let l := (← strField j "line").toList
+    return Json.mkObj [("model", Json.bool (mtNew l)), ("old", Json.bool (mtOld l)), ("spec", Json.bool (isContLine l))]
+  | "class" =>
+    -- {"resis": [[class, number], ...], "suffix": s}
+    let rs ← (← arrField j "resis").mapM fun r => do
+      let a ← arr r
+      match a with
+      | [c, n] => pure ((← str c).toList, ← int n)
+      | _ => err "resis entry"
+    let s := (← strField j "suffix").toList
+    return Json.mkObj [("model", ofInts (classNumbers keyNew rs s)), ("old", ofInts (classNumbers keyOld rs s)),
+                       ("spec", ofInts (specClassNumbers rs s))]
+  | _ => err s!"C05: unknown op {op}"
 
 end Shelx.Drv.C05
